@@ -331,7 +331,8 @@ impl StringGenerator {
                 let mut last = area.get_width() - 1;
                 let last_attr = layer.get_char((last, y)).attribute;
                 // trimmed cells come back as default blanks: blinking blanks must stay
-                if last_attr.background_color == 0 && !last_attr.is_blinking() {
+                // ... and colour 0 must be black (the reader's default background), not a custom palette entry
+                if last_attr.background_color == 0 && buf.palette.get_rgb(0) == (0, 0, 0) && !last_attr.is_blinking() {
                     while last > area.left() {
                         let c = layer.get_char((last, y));
 
@@ -544,6 +545,7 @@ impl StringGenerator {
                     if self.options.use_cursor_forward
                         && line[x].ch == ' '
                         && line[x].cur_state.bg_idx == 0
+                        && line[x].cur_state.bg.get_rgb() == (0, 0, 0)
                         && !line[x].cur_state.is_blink
                         && x + rle + 1 < layer.get_width() as usize
                     {
